@@ -1,4 +1,4 @@
-Require Import QtlVerif.ShutdownDefs QtlVerif.SrcShutdown.
+Require Import QtlVerif.ShutdownDefs QtlVerif.SrcShutdown QtlVerif.ShutdownCounterDefs.
 Require Extraction.
 Require Import ExtrOcamlBasic.
 (* the model's code-dependent switches are computed from the translated skeleton *)
@@ -6,4 +6,6 @@ Definition rc_src : bool := rechecks_after_relock src_skeleton.
 Definition du_src : bool := dec_unconditional src_skeleton.
 Definition accept_src := accept_shutdown rc_src du_src.
 Definition run_src := run rc_src du_src.
-Extraction "shutdown_model.ml" accept_src prop_c04_b stuck_b leaked_b errorb run_src init mu rc_src du_src.
+(* the loop test of the drain loop as the code evaluates it on its [src_counter_bits]-bit counter, and as the model does *)
+Definition src_drain_test (n : nat) : bool * bool := (drain_test src_counter_bits n, Nat.ltb 0 n).
+Extraction "shutdown_model.ml" accept_src prop_c04_b stuck_b leaked_b errorb run_src init mu rc_src du_src src_drain_test src_counter_bits.
